@@ -284,6 +284,32 @@ impl Sess {
                 }
                 (line.to_string(), res)
             }
+            "spec.asmstep" => {
+                // one assembly step on a copy (real trigger_key_clock, watchdog) vs single edges to the boundary
+                let mut a = self.m.clone();
+                a.set_step_mode(StepMode::Assembly);
+                let (tx, rx) = std::sync::mpsc::channel();
+                std::thread::spawn(move || {
+                    a.trigger_key_clock();
+                    let _ = tx.send(a);
+                });
+                let a = match rx.recv_timeout(std::time::Duration::from_secs(5)) {
+                    Ok(a) => a,
+                    Err(_) => return (line.to_string(), "timeout".into()),
+                };
+                let mut b = self.m.clone();
+                b.set_step_mode(StepMode::Assembly);
+                let mut k = 0;
+                while b.is_instruction_done() && b.state() == State::Running && k < 6000 {
+                    b.raw_mut().trigger_clock_edge();
+                    k += 1;
+                }
+                while !b.is_instruction_done() && b.state() == State::Running && k < 6000 {
+                    b.raw_mut().trigger_clock_edge();
+                    k += 1;
+                }
+                (line.to_string(), if a == b { "equal".into() } else { format!("differ after {} edges", k) })
+            }
             "spec.nopanic" => (line.to_string(), if self.last_panicked { "panic".into() } else { "ok".into() }),
             _ => {
                 let r = self.apply(line);
